@@ -398,8 +398,21 @@ func (s *cacheSUT) checkQuery(q []byte, viol violFn) (nontrivial bool) {
 		}
 	}()
 	var seq []string
+	// a reader may query again from inside a callback (read locks nest): the outer enumeration must not be disturbed
+	nested := 0
 	s.c.ForEach(q, func(e kademlia.Entry[uint64]) bool {
 		seq = append(seq, string(e.Key))
+		if len(seq)%3 == 1 && nested < 6 {
+			nested++
+			q2 := append([]byte{}, e.Key...)
+			if len(q2) > 0 {
+				q2[len(q2)-1] ^= 0x5A
+				q2[0] ^= byte(nested) << 5
+			}
+			s.c.Closest(q2)
+			s.c.ForEach(q2, func(kademlia.Entry[uint64]) bool { return true })
+			s.c.ForEachCloser(q2, func(kademlia.Entry[uint64]) bool { return true })
+		}
 		return true
 	})
 	seen := map[string]bool{}
